@@ -90,7 +90,7 @@ def cases(rng, tier):
             WRONG = ["s", 7, True, ["a", "b"], {"a": 1}, None, "12", [1], [], ["a", 1], [1, "a"], ["a", {"x": 1}], ["a", None], ["a", ["b"]]]
             for wrong in (WRONG if tier != "quick" else rng.sample(WRONG, 4)):
                 out.append({"t": "slot", "cls": qn, "param": pn, "kind": k, "v": wrong})
-    out += rule_cases()
+    out += rule_cases() + bcl_cases()
     return out
 
 
@@ -98,6 +98,45 @@ def cases(rng, tier):
 # For each class with a rule of its own: the FULL table of the rule's inputs (the property's quantifier), on a message that satisfies the
 # generic schema.  `args` go to the constructor, `kw` to verify(); `line` is what the Lean rule is asked.
 BCL = "http://schemas.openid.net/event/backchannel-logout"
+
+
+# ---- the embedded signed object of a back-channel logout request, as the relying party's handler consumes it
+BCL_REG = ["dynamic-with-alg", "dynamic-without-alg", "static"]
+BCL_TOK = ["genuine", "unsigned", "foreign-key", "with-nonce", "no-events", "other-aud", "no-sub-no-sid"]
+
+
+def bcl_cases():
+    return [{"t": "bcl", "reg": r, "tok": t} for r in BCL_REG for t in BCL_TOK]
+
+
+def _bcl_impl(c):
+    import rpbase, clock
+    from idpyoidc.client.oauth2.stand_alone_client import backchannel_logout
+    from idpyoidc.exception import MessageException
+    rp = rpbase.make_rp(sigalg="RS256" if c["reg"] == "dynamic-with-alg" else None, reg="dynamic" if c["reg"].startswith("dynamic") else "static")
+    import time
+    now = int(time.time())
+    cl = {"iss": rpbase.ISS, "aud": [rpbase.CID], "iat": now, "jti": "j1", "sub": "sub-alice",
+          "events": {"http://schemas.openid.net/event/backchannel-logout": {}}}
+    t = c["tok"]
+    if t == "with-nonce":
+        cl["nonce"] = "n"
+    elif t == "no-events":
+        del cl["events"]
+    elif t == "other-aud":
+        cl["aud"] = ["somebody-else"]
+    elif t == "no-sub-no-sid":
+        del cl["sub"]
+    tok = rpbase.sign(cl, {"unsigned": "unsigned", "foreign-key": "foreign-rsa"}.get(t, "op-rsa"))
+    try:
+        backchannel_logout(rp, request_args={"logout_token": tok})
+        return {"r": "ok"}
+    except KeyError as e:
+        return {"r": "ok", "note": "verified; no session known for the subject"}
+    except MessageException as e:
+        return {"r": "rejected", "e": str(e)[:80]}
+    except Exception as e:
+        return {"r": "rejected", "e": type(e).__name__ + ": " + str(e)[:80]}
 
 
 def _b(x):
@@ -266,6 +305,8 @@ def _run_rule(c):
 
 
 def impl(c):
+    if c["t"] == "bcl":
+        return _bcl_impl(c)
     if c["t"] == "rule":
         return _run_rule(c)
     cls = classes()[c["cls"]]
@@ -326,6 +367,8 @@ def _enc_allowed(al):
 
 
 def model_lines(c, obs):
+    if c["t"] == "bcl":
+        return []          # the embedded object's signature policy is C08's / C16's model; here the oracle states the rule
     if c["t"] == "rule":
         return [c["line"]]
     cls = classes()[c["cls"]]
@@ -354,6 +397,8 @@ def model_lines(c, obs):
 
 
 def compare(c, obs, outs):
+    if c["t"] == "bcl":
+        return []
     if c["t"] == "rule":
         return [] if outs[0] == obs["r"] else [f"rule {c['rule']} on {c['args']} verify({c['kw']}): model={outs[0]} impl={obs}"]
     if c["t"] == "gen":
@@ -388,6 +433,12 @@ RULE_ORACLE = {
 
 def oracle(c, obs):
     v = []
+    if c["t"] == "bcl":
+        if obs["r"] == "ok" and c["tok"] != "genuine":
+            v.append({"cls": "invalid-logout-token-accepted", "token": c["tok"], "registration": c["reg"]})
+        if obs["r"] != "ok" and c["tok"] == "genuine":
+            v.append({"cls": "genuine-logout-token-refused", "registration": c["reg"], "how": obs.get("e")})
+        return v
     if c["t"] == "rule":
         f = RULE_ORACLE.get(c["rule"])
         if f and obs["r"] == "ok" and not f(c["args"], c["kw"]):
@@ -409,13 +460,15 @@ def known_key(c, v, known):
 
 
 def classify(c, obs):
+    if c["t"] == "bcl":
+        return "bcl:" + obs["r"]
     if c["t"] == "rule":
         return "rule:" + c["rule"] + ":" + obs["r"]
     return c["t"] + ":" + obs["r"]
 
 
 def nontrivial(c, obs):
-    if c["t"] == "rule":
+    if c["t"] in ("rule", "bcl"):
         return True
     return c["t"] != "req" or c.get("drop") is not None or c.get("outside") is not None
 
